@@ -659,10 +659,19 @@ def check (op : String) (args : List String) (impl : String) : List (String × S
         [("C02", s!"`a || b`: crate or={get "or"} ro={get "ro"}, expected {wantOr} (a={sa} b={sb}) at {showV v}")]
       -- AND: only for comparator lists (no hyphen form, closed tokens): generated without blanks
       -- inside comparators, so a text containing " - " or `||` is skipped
+      -- a token is *closed* if no production can run off its end into the next token: it is not an
+      -- operator (or `~`, `~>`, `^`, nothing) optionally followed by `v` with nothing after it, and it
+      -- is not a lone `-` (which would form a hyphen range with its neighbours)
+      let closedTok (tok : String) : Bool :=
+        let afterOp := ([">=", "<=", "~>", ">", "<", "=", "~", "^"].findSome? (fun op =>
+          if tok.startsWith op then some ((tok.drop op.length).toString) else none)).getD tok
+        let afterV := if afterOp.startsWith "v" then (afterOp.drop 1).toString else afterOp
+        !afterV.isEmpty && tok != "-"
       let plain (x : List Char) : Bool :=
         let str := String.ofList x
         !(x.any (· == '|')) && (str.splitOn " - ").length == 1 && (str.splitOn "\t").length == 1 &&
-          x.head? != some ' ' && x.getLast? != some ' ' && (str.splitOn "  ").length == 1
+          x.head? != some ' ' && x.getLast? != some ' ' && (str.splitOn "  ").length == 1 &&
+          (str.splitOn " ").all closedTok
       let andFail :=
         if !(plain ta && plain tb) then [] else
         let va := vsetOfField (get "pa")
